@@ -143,6 +143,16 @@ APaths(exit, items, pfx) ==
       THEN APaths(exit, items[i].kids, Append(pfx, items[i].row))
              \o (IF exit = "" THEN <<>> ELSE << pfx \o <<items[i].row, <<exit>>>> >>)
       ELSE <<>>)])
+\* JuniperFormatter.cmd_paths: one flat line per leaf of the patch tree -- `set <path words>`, or `<negation word> <path words>` for a removal
+\* (a block without children is a leaf too); a command is a path of ONE row holding all the words
+RECURSIVE AFlat(_, _, _)
+AFlat(prefix, items, prev) ==
+  FlatSeq([i \in DOMAIN items |->
+     IF items[i].block /\ items[i].kids # <<>> THEN AFlat(prefix, items[i].kids, prev \o items[i].row)
+     ELSE LET row == items[i].row IN
+          IF row[1] = prefix THEN << << <<prefix>> \o prev \o Tail(row) >> >> ELSE << << <<"set">> \o prev \o row >> >>])
+IsFlat(RB) == "flat" \in DOMAIN RB /\ RB.flat
+ACmdsOf(RB, d) == Dedup(IF IsFlat(RB) THEN AFlat(RB.prefix, APatch(RB.prefix, d), <<>>) ELSE APaths(RB.exit, APatch(RB.prefix, d), <<>>))
 \* cmd_paths is a dict keyed by the path: a path sent twice is kept once, at its first position
-ACmds(RB, old, new) == Dedup(APaths(RB.exit, APatch(RB.prefix, AMakeDiff(RB, old, new)), <<>>))
+ACmds(RB, old, new) == ACmdsOf(RB, AMakeDiff(RB, old, new))
 =============================================================================
